@@ -788,13 +788,16 @@ class SamplingMethod(DirectMethod):
         return veccat(*[e.sampled[k] for e in self.signals.values()])
 
     def get_p_sys(self, stage, k, include_signals=True):
+        # Same layout as the parameter input of the system function: vertcat(stage.p, stage.v)
+        def signals_at(symbols):
+            return [self.signals[s].sampled[k] for s in symbols] if include_signals else []
         args = [vvcat(self.P),
                 self.get_p_control_at(stage, k),
-                self.get_p_control_plus_at(stage, k),
-                self.V, self.get_v_control_at(stage, k),
-                self.get_v_control_plus_at(stage, k)]
-        if include_signals:
-            args.append(self.get_signals_at(stage, k))
+                self.get_p_control_plus_at(stage, k)] + \
+               signals_at(stage.parameters['bspline']) + \
+               [self.V, self.get_v_control_at(stage, k),
+                self.get_v_control_plus_at(stage, k)] + \
+               signals_at(stage.variables['bspline'])
         return vcat(args)
 
     def eval(self, stage, expr):
